@@ -90,13 +90,18 @@ TraceStep ==
        /\ IF skip THEN UNCHANGED <<cands, bad, w, mt>> /\ Count(5)
           ELSE IF ev.call.op = "wrap" THEN
                \* from here on the calls of this trace go through a wrapper around the same base
-               \* flag = <<kind>> or <<"failfs", fn>> with the plan's k in n
+               \* flag = <<kind>> or <<"failfs", fn>> with the plan's k in n; making the wrapper changes nothing
+               /\ LET same == {cd \in pre : ProjFor(cd.st) = PostOf(ev) /\ CwdPath(cd.st) = ev.cwd
+                                              /\ (ev.um # -1 => cd.st.umask = ev.um)} IN
+                  IF same = {} /\ ev.tr # "__end" THEN Note(2, {<<ev.tr, ev.i>>}) ELSE TRUE
                /\ cands' = {[cd EXCEPT !.x = IF ev.call.flag[1] = "sub"
                                               THEN [dir |-> ev.call.p.parts, vcwd |-> <<>>, umask |-> cd.st.umask]
                                               ELSE IF Len(ev.call.flag) > 1
                                               THEN [plan |-> [fn |-> ev.call.flag[2], k |-> ev.call.n], fc |-> EmptyFn]
                                               ELSE X0] : cd \in pre}
-               /\ bad' = FALSE /\ w' = ev.call.flag[1] /\ mt' = ev.mt /\ Count(4)
+               /\ bad' = (ev.tr # "__end" /\ \A cd \in pre : ~(ProjFor(cd.st) = PostOf(ev) /\ CwdPath(cd.st) = ev.cwd
+                                                                  /\ (ev.um # -1 => cd.st.umask = ev.um)))
+               /\ w' = ev.call.flag[1] /\ mt' = ev.mt /\ Count(4)
           ELSE
           LET call == IF Impl = "osfs" THEN ev.call ELSE CleanCall(ev.call)
               mtok == wpre \notin {"rofs", "failro"} \/ ev.mt = mt
